@@ -61,6 +61,9 @@ def mkOpt (ci : CfgInfo) : Decl → Opt
         | some toks =>
           let vs := toks.filterMap (convTok info.ty)
           let vs := if flags.list then vs else vs.reverse.take 1
+          -- the default text goes through cfg_parse_internal, whose end-of-input handling
+          -- drops the values of a deprecated+drop option again
+          let vs := if flags.deprecated && flags.drop then [] else vs
           .mk info { f1 with reset := true, modified := false } subs vs none
       else
         let vs : List Val :=
